@@ -1131,7 +1131,11 @@ fn judge(s: &Scenario, st: ExecState, panic_msg: Option<String>, drainer_exists:
     } else if msg.starts_with("exceeded max_steps") {
       out.inconclusive = true;
     } else {
-      out.failure = Some(Failure::new("C01", format!("E3/{}/panic/{}", s.flavour.name(), crate::panic_site(&msg)), format!("schedule seed {seed}: panic inside the channel: {msg}")));
+      // a panic inside the library during a legal operation is outside what any of the
+      // behavioural properties allows: reported under the property being checked
+      let cur = crate::current_property();
+      let prop: &'static str = ["C01", "C02", "C03", "C04", "C05", "C07", "C09"].into_iter().find(|c| *c == cur).unwrap_or("C01");
+      out.failure = Some(Failure::new(prop, format!("E3/{}/panic/{}", s.flavour.name(), crate::panic_site(&msg)), format!("schedule seed {seed}: panic inside the channel: {msg}")));
     }
     return out;
   }
